@@ -809,6 +809,7 @@ func ruleSecretWhole(c *Checker) {
 	}
 	rulePatternSource(c, "HSK-SIB")
 	ruleSecretImmutable(c, "HSK-SIB")
+	ruleKeySchedule(c, "HSK-ORDER")
 	// the handshake state keeps exactly what it was given
 	if nhs := mboxFunc(c, "mailbox.newHandshakeState"); nhs != nil {
 		f := w.Field("mailbox.handshakeState.passphraseEntropy")
